@@ -116,10 +116,10 @@ func checkDot(o *run.Outcome, what, dot string) ([]obs.Edge, bool) {
 
 func runCase(c *run.Ctx, o *run.Outcome) {
 	r := c.Rng
-	m := modelgen.Generate(r.Fork(), modelgen.Opts{MaxClasses: 8, MaxMethods: 40, MaxOut: 6, Quotes: true, DefaultPkg: true, Kinds: true, OddRunes: true})
+	m := modelgen.Generate(r.Fork(), modelgen.Opts{MaxClasses: 8, MaxMethods: 40, MaxOut: 6, Quotes: true, DefaultPkg: true, Kinds: true, OddRunes: true, CaseTwins: true, Ctors: true, PlatformLikePkgs: true})
 	if r.Chance(1, 2) {
 		// half of the cases are small, so that trees that fit the budget are well represented
-		m = modelgen.Generate(r.Fork(), modelgen.Opts{MaxClasses: 4, MaxMethods: 9, MaxOut: 3, Quotes: true, DefaultPkg: true, Kinds: true, OddRunes: true})
+		m = modelgen.Generate(r.Fork(), modelgen.Opts{MaxClasses: 4, MaxMethods: 9, MaxOut: 3, Quotes: true, DefaultPkg: true, Kinds: true, OddRunes: true, CaseTwins: true, Ctors: true, PlatformLikePkgs: true})
 	}
 	deps := common.ToCoca(m)
 	o.Count("methods", len(m.Methods()))
